@@ -6,7 +6,7 @@ from vf.model import *
 CID_TEXT = "d,format,delimited\nf,id,,,,Integer\nf,kind\nc,u,IsUnique,id\nc,k,DistinctCount,kind < 3\n"
 FIXED_CID_TEXT = "d,format,fixed\nd,line delimiter,lf\nf,id,,,1,Integer\nf,kind,,,1\nc,u,IsUnique,id\nc,k,DistinctCount,kind < 3\n"
 CLEAN = "1,a\n2,b\n"; DUP = "1,a\n1,b\n"; MANY = "1,a\n2,b\n3,c\n"        # MANY fails the distinct count at the end
-OPS = ["read_clean", "read_dup", "read_many", "abandon1", "abandon2", "read_noclose", "write", "write_close", "write_dup", "two_readers"]
+OPS = ["read_clean", "read_dup", "read_many", "abandon1", "abandon2", "read_noclose", "write", "write_close", "write_dup", "two_readers", "validate_0", "validate_1", "reader_unused"]
 
 
 def run_op(cid, op):
@@ -23,6 +23,14 @@ def run_op(cid, op):
     if op in ("abandon1", "abandon2"):
         def f():
             g = validio.rows(cid, io.StringIO(T(MANY))); got = [next(g) for _ in range(1 if op == "abandon1" else 2)]; g.close(); return got
+        return outcome(f)
+    if op in ("validate_0", "validate_1"):         # validate-only API with a validation limit (0: nothing is validated, the end-of-data checks see no row)
+        def f(): validio.validate(cid, io.StringIO(T(CLEAN)), validate_until=int(op[-1])); return "passed"
+        return outcome(f)
+    if op == "reader_unused":                      # a reader that is opened and closed without reading a row
+        def f():
+            with validio.Reader(cid, io.StringIO(T(CLEAN))): pass
+            return "closed"
         return outcome(f)
     if op == "two_readers":
         def f():
